@@ -162,6 +162,48 @@ def engine_accounting_rule(rep):
     rep.floor("C16.g", n, 12)
 
 
+def _op_sig(items, out=None):
+    """multiset of wire operations (kind, type) of a wire program, loops and alternatives flattened."""
+    if out is None:
+        out = {}
+    for it in items:
+        if it[0] == "op":
+            k = "%s(%s)" % (it[1], it[2])
+            out[k] = out.get(k, 0) + 1
+        elif it[0] == "loop":
+            _op_sig(it[1], out)
+        else:
+            for a in it[1]:
+                _op_sig(a, out)
+    return out
+
+
+def template_wire_rule(rep, template_sig):
+    rep.rule("C16.e/template", "container keys are persisted: the wire program of each XTemplateSerializer::storeObject still contains "
+             "every operation it contained on the confirmed tree (kind and type, as a multiset; baselines/serial_templates.json) — "
+             "a key that both storeObject and loadObject stop transferring (and re-derive from the element) keeps the stream "
+             "symmetric while entries registered under another key than their own (a local element declared in a named group, "
+             "registered under the referencing type's scope) can no longer be found in the restored pool")
+    bp = os.path.join(core.VERIF, "baselines", "serial_templates.json")
+    if os.environ.get("VERIF_REBASELINE") == "serial_fields":
+        json.dump({t: v[0] for t, v in sorted(template_sig.items())}, open(bp, "w"), indent=0, sort_keys=True)
+    if not os.path.exists(bp):
+        raise AnalysisBroken("baseline baselines/serial_templates.json is missing")
+    base = json.load(open(bp))
+    n = 0
+    for ty, ops in sorted(base.items()):
+        if ty not in template_sig:
+            rep.notes.append("C16.e/template: container %s of the baseline has no storeObject any more" % ty)
+            continue
+        now, where = template_sig[ty]
+        lost = {k: v - now.get(k, 0) for k, v in ops.items() if now.get(k, 0) < v}
+        n += 1
+        rep.ob("C16.e/template", ty, not lost, "%d operations, none lost" % sum(ops.values()) if not lost else
+               "storeObject(%s) no longer writes %s: a key or member of the container's entries is not transferred any more" % (
+                   ty, ", ".join("%s x%d" % kv for kv in sorted(lost.items()))), where)
+    rep.floor("C16.e/template", n, 20)
+
+
 def run(rep):
     f = core.library_facts()
     fns = _engine_functions(f)
@@ -213,6 +255,7 @@ def run(rep):
     rep.rule("C16.a/template", "every XTemplateSerializer::storeObject(C*) has a loadObject(C**) for the same container type "
              "and their wire programs are equal")
     stores, loads = {}, {}
+    template_sig = {}
     for kind, tab in (("storeObject", stores), ("loadObject", loads)):
         for s in sts.get("XTemplateSerializer::" + kind, []):
             ps = serial._params(s["sig"])
@@ -232,7 +275,9 @@ def run(rep):
         total_ops += serial.count_ops(st)
         rep.ob("C16.a/template", ty, not d, "%d wire operations, store == load" % serial.count_ops(st) if not d else d[0],
                "%s:%d" % (stores[ty]["file"], stores[ty]["line"]), detail={"store": _render(st), "load": _render(ld)})
+        template_sig[ty] = (_op_sig(st), "%s:%d" % (stores[ty]["file"], stores[ty]["line"]))
     rep.floor("C16.a/template", k, 25)
+    template_wire_rule(rep, template_sig)
 
     # ------------------------------------------------------------------ C16.a pool
     rep.rule("C16.a/pool", "XMLGrammarPoolImpl::serializeGrammars and deserializeGrammars have equal wire programs")
